@@ -316,8 +316,8 @@ class YP(object):
             goal_name = to_python(goal_value)
             goal_args = []
         elif isinstance(goal_value, Functor):
-            goal_name = goal._name
-            goal_args = goal._args
+            goal_name = goal_value._name
+            goal_args = goal_value._args
         else:
             # TODO: raise exception
             pass
@@ -330,6 +330,7 @@ class YP(object):
 
     def asserta(self, term):
         '''asserta(Term) adds Term to the facts database at the beginning.'''
+        term = get_value(term)
         if isinstance(term, Functor):
             self.assert_fact(self.atom(term._name), term._args, False)
         elif isinstance(term, Atom):
@@ -338,6 +339,7 @@ class YP(object):
 
     def assertz(self, term):
         '''assertz(Term) adds Term to the facts database at the end.'''
+        term = get_value(term)
         if isinstance(term, Functor):
             self.assert_fact(self.atom(term._name), term._args)
         elif isinstance(term, Atom):
@@ -346,6 +348,7 @@ class YP(object):
 
     def retract(self, term):
         '''retract(Term) removes all dynamic facts matching Term and backtracks over identical clauses.'''
+        term = get_value(term)
         if isinstance(term, Functor):
             name = term._name
             args = term._args
@@ -372,6 +375,7 @@ class YP(object):
 
     def retractall(self, term):
         '''retractall(Term) removes all dynamic facts matching Term, without backtracking over identical clauses.'''
+        term = get_value(term)
         if isinstance(term, Functor):
             name = term._name
             args = term._args
